@@ -86,6 +86,14 @@ def run(ctx):
     add("c:%x" % (R - 1), "all-max")
     add("z", "zero")
     diff(ctx, lines, "Commit vs sum v_i G_i", cls, nt)
+    # (1b) the same Go results against the ALGORITHM-level model (Coq model of the precomputed-table
+    # MSM: window recoding with carry, table lookups, negation), on a sample biased to the 8-bit tables
+    # (the 16-bit tables of points 0..4 are built lazily by the model: 2^15 entries x 16 windows each)
+    pick = [j for j, l in enumerate(lines) if rng.random() < (0.02 if ctx.quick() else 0.05)]
+    pick = pick[: ctx.n(400, 6000)]
+    pc_lines = [lines[j] for j in pick]
+    diff(ctx, pc_lines, "Commit vs precomputed-table model", [cls[j] + "-pc" for j in pick], [nt[j] for j in pick],
+         model_lines=["commitpc " + l.split(" ", 1)[1] for l in pc_lines], shards=1)
     # (4) linearity through the implementation's own group operations
     ll = []
     for _ in range(ctx.n(40, 2000)):
